@@ -47,7 +47,9 @@ def case_strategy(draw):
     # allele calls overwritten in place on the same object after the statistics have been queried once
     edits = draw(st.lists(st.tuples(st.integers(0, 10 ** 6), st.integers(0, 10 ** 6), st.integers(0, 10 ** 6), st.integers(0, 1),
                                     st.sampled_from(["mat", "setitem", "column"])).map(list), max_size=3))
-    return {"phased": phased, "ploidy": ploidy, "n": n, "p": p, "cols": cols, "dtype": dtype, "edits": edits}
+    # how the matrix object holds its data: its own array, or a read-only view of an array the caller keeps (and later edits)
+    storage = draw(st.sampled_from(["own", "own", "readonly_view", "readonly_thawed"]))
+    return {"phased": phased, "ploidy": ploidy, "n": n, "p": p, "cols": cols, "dtype": dtype, "edits": edits, "storage": storage}
 
 
 def build_calls(case):
@@ -77,12 +79,34 @@ def check_stats(case, ctx):
     calls = build_calls(case)
     m, n, p = calls.shape
     dos = calls.sum(0).astype("int8")           # (n,p) dosage
+    storage = case.get("storage", "own")
+    base = calls.copy() if case["phased"] else dos.copy()       # the caller's own array
+    held = base
+    if storage in ("readonly_view", "readonly_thawed"):
+        held = base.view()
+        held.flags.writeable = False
     if case["phased"]:
-        g = DensePhasedGenotypeMatrix(mat=calls.copy())
+        g = DensePhasedGenotypeMatrix(mat=held)
     else:
-        g = DenseGenotypeMatrix(mat=dos.copy(), ploidy=m)
+        g = DenseGenotypeMatrix(mat=held, ploidy=m)
+    ctx.label("storage:" + storage)
     evaluate(case, ctx, g, calls)
     edits = case.get("edits") or []
+    if edits and storage != "own":
+        # the matrix holds a read-only handle on memory that the caller still owns and now changes
+        ctx.label("queried_again_after_external_edit_of_readonly_buffer")
+        for (a, b, c, v, how) in edits:
+            ph, i, j = a % m, b % n, c % p
+            if how == "column":
+                calls[:, :, j] = v
+            else:
+                calls[ph, i, j] = v
+        newv = calls if case["phased"] else calls.sum(0).astype("int8")
+        if storage == "readonly_thawed":
+            g.mat.flags.writeable = True if g.mat.base is None else g.mat.flags.writeable
+        base[...] = newv
+        evaluate(case, ctx, g, calls)
+        return
     if edits:
         # the same object, its allele calls overwritten in place: every statistic must describe the calls it holds NOW
         ctx.label("queried_again_after_in_place_edit")
